@@ -14,6 +14,17 @@ type C01Case struct {
 	// Share: the root holds the same non-empty container content twice and is built with ONE instance at
 	// both places (an acyclic structure in which a container is reachable along two paths)
 	Share bool `json:"share,omitempty"`
+	// Route != 0: the container is built through the construction routes of BuildVariant (NewListOf +
+	// Replace, Concat of halves, SubList of a longer list, typed-slice origin, spare capacity, parser ...)
+	Route int `json:"route,omitempty"`
+}
+
+// genRoute draws the construction-route seed of a text-property case: 0 (plain Add/Set) in three cases of four.
+func genRoute(t *rapid.T, share bool) int {
+	if share || !oneIn(t, 4, "route") {
+		return 0
+	}
+	return 1 + genRaw(t)
 }
 
 func genTreeCase(t *rapid.T) V {
@@ -79,9 +90,12 @@ func withSharedChild(t *rapid.T, a V) (V, bool) {
 }
 
 // buildMaybeShared builds the container of a text-property case.
-func buildMaybeShared(root V, share bool) any {
+func buildMaybeShared(root V, share bool, route int) any {
 	if share {
 		return BuildSharing(root)
+	}
+	if route != 0 && root.Depth() < 100 {
+		return BuildVariant(root, route)
 	}
 	return Build(root)
 }
@@ -91,6 +105,7 @@ func GenC01(t *rapid.T) *C01Case {
 	if oneIn(t, 8, "share") {
 		c.Root, c.Share = withSharedChild(t, c.Root)
 	}
+	c.Route = genRoute(t, c.Share)
 	if oneIn(t, 5, "remutate") {
 		c.Muts = genNestedMuts(t)
 	}
@@ -138,7 +153,7 @@ func CheckC01(c *C01Case, st *Stats) error {
 	if c.Root.K != KList && c.Root.K != KObject {
 		return nil
 	}
-	orig := buildMaybeShared(c.Root, c.Share)
+	orig := buildMaybeShared(c.Root, c.Share, c.Route)
 	if c.Share {
 		st.Count("shared_instance")
 	}
